@@ -70,6 +70,8 @@ def statements(i: int, env: List[Tuple[str, str]], params: List[str], ops: List[
         yield {"k": "call", "fn": "pair_u", "args": [a], "kwargs": {}, "flag": None, "out": [out + "a", out + "b"]}, [(out + "a", "int"), (out + "b", "int")]
         yield {"k": "call", "fn": "pair", "args": [a], "kwargs": {}, "flag": None, "out": out}, [(out, "tup")]
         yield {"k": "call", "fn": "mkd", "args": [a], "kwargs": {}, "flag": None, "out": out}, [(out, "dct")]
+        yield {"k": "call", "fn": "nonef", "args": [a], "kwargs": {}, "flag": None, "out": out}, [(out, "opt")]
+        yield {"k": "call", "fn": "ident", "args": [a], "kwargs": {}, "flag": None, "out": out}, [(out, "opt")]
         if a[0] != "c":
             yield {"k": "uop", "op": "-", "a": a, "out": out}, [(out, "int")]
             yield {"k": "logic", "fn": "not_", "args": [a], "out": out}, [(out, "bool")]
